@@ -99,6 +99,34 @@ func configureRegistries(config string) {
 	}
 }
 
+// callFormsFile pins the ways a call can hand the caller's own maps to a callee together with explicit params:
+// whatever expression yields the map, the params must never be written into it.
+const callFormsFile = `{namespace pr}
+/**
+ * @param? m
+ * @param? c
+ */
+{template .callforms}
+{if isNonnull($m)}
+{call .show data="$m"}{param a: 1 /}{/call}
+{call .show data="augmentMap($m, [:])"}{param a: 2 /}{/call}
+{call .show data="augmentMap([:], $m)"}{param s: 'x' /}{/call}
+{call .show data="$m ?: $m"}{param a: 3 /}{/call}
+{call .show data="$c ? $m : $m"}{param s}content{/param}{/call}
+{call .show data="['k': $m].k"}{param a: 4 /}{/call}
+{let $alias: $m /}{call .show data="$alias"}{param a: 5 /}{param extra: 'e' /}{/call}
+{call .show data="all"}{param a: 6 /}{/call}
+[{$m.a}|{$m.s}|{$m.extra ?: 'no-extra'}]
+{/if}
+{/template}
+/**
+ * @param? a
+ * @param? s
+ * @param? extra
+ */
+{template .show}({$a ?: 'na'},{$s ?: 'ns'},{$extra ?: 'nx'}){/template}
+`
+
 const customFile = "{namespace cust}\n/** @param? a */\n{template .t}\n{verifTwice($a ?: 'q')|verifBang}{$a|verifBang|truncate:3}\n{/template}\n"
 
 type c08Op struct {
@@ -191,7 +219,18 @@ func c08History(r *fw.Rand, tier, config string, nops int) (files []srcFile, pro
 	if config == "custom" {
 		files = append(files, srcFile{"custom.soy", customFile})
 	}
+	files = append(files, srcFile{"callforms.soy", callFormsFile})
 	datas = []map[string]ref.Value{prog.Data, g.NewData(prog), {}}
+	for k, d := range datas[:2] {
+		if _, has := d["m"]; !has {
+			mv := ref.MapOf("a", ref.Int(int64(70+k)), "s", ref.Str("shared"))
+			mv.ID = 4000 + k
+			d["m"] = mv
+		}
+		if _, has := d["c"]; !has {
+			d["c"] = ref.Bool(k == 0)
+		}
+	}
 	// a hostile data map: wrong kinds everywhere, to make renders fail part-way
 	h := map[string]ref.Value{}
 	hv := hostileValues()
@@ -208,6 +247,7 @@ func c08History(r *fw.Rand, tier, config string, nops int) (files []srcFile, pro
 	if config == "custom" {
 		names = append(names, "cust.t")
 	}
+	names = append(names, "pr.callforms", "pr.callforms")
 	for k := 0; k < nops; k++ {
 		if r.P(1, 4) {
 			ops = append(ops, c08Op{kind: "js", file: r.Intn(4), es6: r.Bool(), msgs: r.P(1, 3), viaGen: r.P(1, 4)})
@@ -277,6 +317,9 @@ func init() {
 				after := digestAll()
 				ctx.Obs("operations", 1)
 				ctx.Obs("digests_taken", 8)
+				if op.kind == "render" && op.tmpl == "pr.callforms" && err == nil && strings.Contains(out, "no-extra") {
+					ctx.Obs("callforms_rendered_ok", 1)
+				}
 				if op.kind == "js" {
 					js++
 				} else if err != nil {
@@ -322,6 +365,9 @@ func init() {
 			}
 			if obs["failing_renders"] == 0 {
 				why = append(why, "no failing render inside a history")
+			}
+			if obs["callforms_rendered_ok"] == 0 {
+				why = append(why, "the call-forms probe never rendered successfully")
 			}
 			if obs["digests_taken"] == 0 {
 				why = append(why, "no digest taken")
